@@ -462,15 +462,16 @@ class NDNApp:
         """
         name = Name.normalize(name)
         del self._prefix_tree[name]
-        try:
-            _, _, reply = await self.express_interest(
-                make_command('rib', 'unregister', self.face, name=name), lifetime=1000)
-            ret = parse_response(reply)
-            return ret['status_code'] == 200
-        except (InterestNack, InterestTimeout, InterestCanceled, ValidationFailure):
-            return False
-        except (DecodeError, IndexError, TypeError, ValueError, struct.error):
-            return False
+        async with self._prefix_register_semaphore:
+            try:
+                _, _, reply = await self.express_interest(
+                    make_command('rib', 'unregister', self.face, name=name), lifetime=1000)
+                ret = parse_response(reply)
+                return ret['status_code'] == 200
+            except (InterestNack, InterestTimeout, InterestCanceled, ValidationFailure):
+                return False
+            except (DecodeError, IndexError, TypeError, ValueError, struct.error):
+                return False
 
     def set_interest_filter(self, name: NonStrictName, func: Route,
                             validator: Validator | None = None, need_raw_packet: bool = False,
